@@ -89,10 +89,10 @@ fn check_dfa(acc: &mut Acc, dfa: &DFA, owner: &DFA, what: &str, text: &str) {
     }
 }
 
-pub fn work(acc: &mut Acc, g: G) {
+pub fn work(acc: &mut Acc, g: G, shell: Shell) {
     let text = print_grammar(&g);
     acc.grammars += 1;
-    let c = match pipe::compile(&text, Shell::Bash) {
+    let c = match pipe::compile(&text, shell) {
         Outcome::Ok(c) => c,
         Outcome::Err(_) => return,
         Outcome::Panic(p) => {
@@ -102,11 +102,13 @@ pub fn work(acc: &mut Acc, g: G) {
     };
     acc.accepted += 1;
     let before = acc.collisions;
-    check_dfa(acc, &c.min, &c.min, "main automaton", &text);
+    let what_main = format!("--{} main automaton", pipe::shell_name(shell));
+    let what_sub = format!("--{} within-word automaton", pipe::shell_name(shell));
+    check_dfa(acc, &c.min, &c.min, &what_main, &text);
     for (_, inp) in c.min.verif_inputs() {
         if let Inp::Subword { subdfa, .. } = inp {
             let sub = c.min.subdfas.verif_lookup(*subdfa);
-            check_dfa(acc, sub, &c.min, "within-word automaton", &text);
+            check_dfa(acc, sub, &c.min, &what_sub, &text);
         }
     }
     // part b: `||` -> `|`
@@ -125,7 +127,7 @@ pub fn work(acc: &mut Acc, g: G) {
                 .collect(),
         };
         let text2 = print_grammar(&g2);
-        match pipe::compile(&text2, Shell::Bash) {
+        match pipe::compile(&text2, shell) {
             Outcome::Ok(c2) => {
                 acc.diff_pairs += 1;
                 let mut keys = Keys::new(false);
@@ -203,6 +205,34 @@ pub fn collision_family(kb: usize, kw: usize, f: &mut dyn FnMut(G)) {
                     crate::fam::def("V", i2.clone()),
                 ],
             });
+        }
+    }
+}
+
+/// branches that start with the same *completer* (built-in `<PATH>`/`<DIRECTORY>`, a nonterminal
+/// defined per shell, an inline command): one command = one reading in every target shell
+/// (zsh turns the first two into `compadd` items)
+pub fn completer_family(kb: usize, f: &mut dyn FnMut(G)) {
+    let v = Vocab { descrs: vec![], ..Vocab::basic(vec![E::lit("a"), E::r("PATH"), E::r("X"), E::cmd("c1")]) };
+    let en = Enumerator::new(v, kb);
+    let mut bs = vec![];
+    en.for_each_upto(kb, &mut |e| {
+        if e.any(|x| matches!(x, E::Ref(_) | E::Cmd(_))) {
+            bs.push(e.clone())
+        }
+    });
+    let defs = |g: &mut G| {
+        for sh in ["bash", "fish", "zsh", "pwsh"] {
+            g.stmts.push(Stmt::Def { name: "X".into(), shell: Some(sh.into()), expr: E::cmd(&format!("x{sh}")) });
+        }
+    };
+    for x in &bs {
+        for y in &bs {
+            for e in [E::Fb(vec![x.clone(), y.clone()]), E::Alt(vec![x.clone(), y.clone()]), E::Seq(vec![E::Fb(vec![x.clone(), y.clone()]), E::lit("t")])] {
+                let mut g = crate::fam::call(e);
+                defs(&mut g);
+                f(g);
+            }
         }
     }
 }
@@ -313,18 +343,35 @@ pub fn run(tier: Tier) -> Report {
     let (bash_pairs, bash_traces) = bash_differential(tier, &mut rep);
     let k = tier.pick(5, 6);
     let (kb, kw) = tier.pick((3, 3), (4, 4));
+    let kc = tier.pick(3, 4);
     let n = crate::par::nthreads();
     let accs = crate::par::run(
         n,
         |push| {
             for g in crate::corpus::grammars() {
-                push(g);
+                for (sh, _) in pipe::SHELLS {
+                    push((g.clone(), sh));
+                }
             }
-            collision_family(kb, kw, &mut |g| push(g));
-            crate::fam::single_call(crate::fam::v0(), k, &mut |g| push(g));
+            // bash for everything; the other targets where they can differ: grammars with
+            // nonterminals or commands (zsh's compadd items, per-shell definitions)
+            let mut push_all = |g: G| {
+                let special = g.stmts.iter().any(|s| match s {
+                    Stmt::Call { expr, .. } | Stmt::Def { expr, .. } => expr.any(|e| matches!(e, E::Ref(_) | E::Cmd(_))),
+                });
+                if special {
+                    for sh in [Shell::Fish, Shell::Zsh, Shell::Pwsh] {
+                        push((g.clone(), sh));
+                    }
+                }
+                push((g, Shell::Bash));
+            };
+            collision_family(kb, kw, &mut |g| push_all(g));
+            completer_family(kc, &mut |g| push_all(g));
+            crate::fam::single_call(crate::fam::v0(), k, &mut |g| push_all(g));
         },
         || Acc { samples: Some(Samples::new(3)), ..Default::default() },
-        |acc, g| work(acc, g),
+        |acc, (g, shell)| work(acc, g, shell),
     );
     let mut t = Acc { samples: Some(Samples::new(12)), ..Default::default() };
     for a in accs {
@@ -355,7 +402,7 @@ pub fn run(tier: Tier) -> Report {
     rep.cov(
         "rule",
         J::s(format!(
-            "exhaustive: collision family (all pairs of trees <= {kb} nodes over {{a, b}} as `||` branches, `|` branches, two call variants, and followed by a word; all pairs of within-word expressions <= {kw} nodes over {{a, b, p=}} after `x=` in two branches, also through a definition) + all trees <= {k} nodes over V0 + corpus. Every state of every compiled (minimized) automaton incl. within-word automata is visited; every pair of outgoing items is examined; states/transitions = automaton states/edges visited plus the product states of the `||` vs `|` comparison (labels with fallback levels and descriptions erased). Bash level: `(X || Y) end`, `X || Y || help` and a within-word `||` for all ordered pairs of a menu of literals, words, probes, sequences starting alike and a placeholder; the traces of the model of the `||` grammar (depth 2) are replayed against both emitted scripts in real bash: same return code, candidates(||) subset of candidates(|), candidates(|) non-empty implies candidates(||) non-empty."
+            "exhaustive: collision family (all pairs of trees <= {kb} nodes over {{a, b}} as `||` branches, `|` branches, two call variants, and followed by a word; all pairs of within-word expressions <= {kw} nodes over {{a, b, p=}} after `x=` in two branches, also through a definition) + completer family (all pairs of trees <= {kc} nodes over {{a, <PATH>, <X> defined per shell, a command}} containing a completer, as `||` / `|` branches) + all trees <= {k} nodes over V0 + corpus; compiled for bash, and for fish, zsh and pwsh as well whenever the grammar has a nonterminal or command (zsh's compadd items). Every state of every compiled (minimized) automaton incl. within-word automata is visited; every pair of outgoing items is examined; states/transitions = automaton states/edges visited plus the product states of the `||` vs `|` comparison (labels with fallback levels and descriptions erased). Bash level: `(X || Y) end`, `X || Y || help` and a within-word `||` for all ordered pairs of a menu of literals, words, probes, sequences starting alike and a placeholder; the traces of the model of the `||` grammar (depth 2) are replayed against both emitted scripts in real bash: same return code, candidates(||) subset of candidates(|), candidates(|) non-empty implies candidates(||) non-empty."
         )),
     );
     rep.cov("exhaustive", J::Bool(true));
